@@ -1,4 +1,5 @@
 """Helpers shared by the checks."""
+import gc
 import random
 
 from . import kernel, seams
@@ -28,7 +29,14 @@ def run_in_kernel(ch, knobs, main_fn):
     """Run main_fn(k) as the main simulated thread.  Exceptions of main are re-raised as harness errors."""
     k = make_kernel(ch, knobs)
     random.seed(ch.seed)   # the process-global generator (the agent draws snapshot ids from it)
-    k.run(lambda: main_fn(k))
+    # cyclic garbage (tracebacks <-> frames) may hold abandoned generators whose finalisation produces trace events:
+    # the collector must not run at a moment the simulator does not control
+    gc.collect()
+    gc.disable()
+    try:
+        k.run(lambda: main_fn(k))
+    finally:
+        gc.enable()
     if k.main.exc is not None:
         raise kernel.HarnessError("scenario main thread failed: %r" % (k.main.exc,)) from k.main.exc
     return k
